@@ -138,3 +138,207 @@ def rule_G(ctx, repo, want=('G-VAL', 'G-PREC')):
             raise AnalysisError('%s: no pair of binding layers found to compare (defaults / partial keywords / caller keywords)' % fi.qual)
         ctx.instances.setdefault('G-PREC', []).append('%d ordered layer pairs over %d layerings' % (n, sum(len(s.val.elts[1].layers_or_self()) for s in main)))
         ctx.sample({'construct': fi.qual, 'layerings of the keyword part (later overrides earlier)': [' < '.join(repr(l) for l in alt) for s in main for alt in sorted(s.val.elts[1].layers_or_self(), key=len)[-2:]]})
+
+
+# ---------------------------------------------------------------------------------------------------------------- C11: ignore forms
+def rule_G_FORMS(ctx, repo):
+    """G-FORMS (exhaustiveness of the ignore specification): each advertised form has a handler that reaches the key -
+    positional indices (isinstance Integral/int) and names (isinstance str) drive a NULL substitution in both the positional and the
+    keyword part, '*' drives the positional part, '**' drives the keyword part; the substitute is the constant marker NULL."""
+    m, fi, r, eng, out = run_keygen(repo)
+    ctx.analysed(fi.qual)
+    rets = [s for s in eng.sites if s.kind == 'return' and s.depth == 0 and s.val.elts is not None and len(s.val.elts) == 2
+            and ('SPEC' in s.val.d or 'SPEC.args' in s.val.d)]
+    if not rets:
+        raise AnalysisError('%s: no (args, kwds) return depends on the inspected signature' % fi.qual)
+    where = '%s:%d' % (m.rel, fi.node.lineno)
+    pa_d = frozenset().union(*[s.val.elts[0].d for s in rets])
+    kw_d = frozenset().union(*[s.val.elts[1].d for s in rets])
+    pa_v = frozenset().union(*[s.val.elts[0].v for s in rets])
+    kw_v = frozenset().union(*[s.val.elts[1].v for s in rets])
+    ints = ('TEST:isinstance:Integral', 'TEST:isinstance:int')
+    checks = [
+        ('ignore specification reaches the positional part', r['ignored'] in pa_d, 'the positional part of the key does not depend on the ignore specification at all'),
+        ('ignore specification reaches the keyword part', r['ignored'] in kw_d, 'the keyword part of the key does not depend on the ignore specification at all'),
+        ('index form -> positional part', any(t in pa_d for t in ints), 'integer entries of the ignore specification (positional indices) never influence the positional part of the key'),
+        ('index form -> keyword part', any(t in kw_d for t in ints), 'integer entries of the ignore specification never influence the keyword part (a named parameter selected by index stays in the key)'),
+        ('name form -> keyword part', 'TEST:isinstance:str' in kw_d, 'string entries of the ignore specification (parameter names) never influence the keyword part of the key'),
+        ("'*' form -> positional part", 'TEST:*' in pa_d, "the marker '*' (ignore all extra positionals) never influences the positional part of the key"),
+        ("'**' form -> keyword part", 'TEST:**' in kw_d, "the marker '**' (ignore all extra keywords) never influences the keyword part of the key"),
+        ('NULL marker substituted in the positional part', any(L.startswith('G:') for L in pa_v), 'ignored positionals are not replaced by a module-level marker object'),
+        ('NULL marker substituted in the keyword part', any(L.startswith('G:') for L in kw_v), 'ignored keywords are not replaced by a module-level marker object'),
+    ]
+    for what, ok, msg in checks:
+        ctx.ob('G-FORMS', what, ok)
+        if not ok:
+            ctx.fail('G-FORMS', fi.qual, what, '_keygen: %s - calls differing only in an ignored argument get different keys' % msg, where)
+
+
+SPEC_FIELDS = ('args', 'defaults', 'varargs', 'varkw', 'kwonlyargs', 'kwonlydefaults')
+
+
+def _spec_deps(eng, sites):
+    d = set()
+    for s in sites:
+        d |= set(s.ctx)
+        if s.val is not None:
+            d |= set(s.val.d)
+    return d
+
+
+def rule_G_FIELDS(ctx, repo):
+    """the key depends on every field of the inspected signature that decides which keywords are parameters of the function: with '**'
+    (ignore all *extra* keywords) a keyword-only parameter must stay in the key, which _keygen can only know from kwonlyargs."""
+    m, fi, r, eng, out = run_keygen(repo)
+    rets = [s for s in eng.sites if s.kind == 'return' and s.depth == 0]
+    d = _spec_deps(eng, rets)
+    for f in SPEC_FIELDS:
+        if f == 'varargs':
+            continue      # the name of *args is irrelevant to the key
+        ok = ('SPEC.' + f) in d or (f == 'varkw' and 'SPEC.keywords' in d)
+        if f == 'varkw':
+            ok = True     # the name of **kwds is irrelevant to the key
+        ctx.ob('G-FIELDS', '_keygen depends on argspec.%s' % f, ok)
+        if not ok:
+            ctx.fail('G-FIELDS', fi.qual, 'key independent of argspec.%s' % f,
+                     'the key computed by _keygen (through signature) never depends on the %s of the inspected function: with ignore=\'**\' a keyword-only '
+                     'parameter cannot be told from an extra keyword, so it is dropped from the key and calls that differ in it share an entry' % f,
+                     '%s:%d' % (m.rel, fi.node.lineno))
+
+
+# ---------------------------------------------------------------------------------------------------------------- C19: validate / isvalid
+def run_validate(repo):
+    m = repo.mod('_inspect')
+    fi = m.functions.get('validate')
+    if fi is None or 'signature' not in m.functions or 'isvalid' not in m.functions:
+        raise AnalysisError('anchor vanished: klepto/_inspect.py::validate / signature / isvalid')
+    a = fi.node.args
+    pos = [x.arg for x in a.posonlyargs + a.args]
+    if not pos or a.vararg is None or a.kwarg is None:
+        raise AnalysisError('anchor changed: validate is expected to take (func, *args, **kwds)')
+    r = {'func': 'P:' + pos[0], 'args': 'P:' + a.vararg.arg, 'kwds': 'P:' + a.kwarg.arg}
+    roots = set(FIELD_ROOTS) | set([r['func'], r['func'] + '.func'])
+    eng = DepEngine(m, field_roots=roots, source_calls=SOURCE_CALLS)
+    eng.run(fi.node, fi.qual, {})
+    return m, fi, r, eng
+
+
+def rule_V(ctx, repo):
+    m, fi, r, eng = run_validate(repo)
+    ctx.analysed(fi.qual)
+    ctx.analysed(m.functions['signature'].qual)
+    raises = [s for s in eng.sites if s.kind == 'raise']
+    rets = [s for s in eng.sites if s.kind == 'return' and s.depth == 0]
+    # ---- V-TYPE: a rejected call is reported as TypeError (what the interpreter raises for a binding failure)
+    n = 0
+    for s in raises:
+        n += 1
+        ok = s.exc is not None and s.exc.split('.')[-1] == 'TypeError'
+        ctx.ob('V-TYPE', 'raise@%s' % ' '.join(unparse(s.node).split())[:50], ok)
+        if not ok:
+            ctx.fail('V-TYPE', s.func, 'raises %s' % s.exc,
+                     'validate (or signature, on its behalf) rejects a call with %s instead of TypeError: the interpreter reports every argument-binding failure as TypeError, '
+                     'and callers of validate catch exactly that' % s.exc, '%s:%d' % (m.rel, s.lineno))
+    if n < 4:
+        raise AnalysisError('instance count below confirmed minimum: %d raise sites in validate/signature (< 4)' % n)
+    # ---- V-NOCALL: validate / signature never call the function they inspect
+    fl = (r['func'], r['func'] + '.func', r['func'] + '.__call__', r['func'] + '.func.__call__')
+    for s in eng.sites:
+        if s.kind != 'call' or s.val is None:
+            continue
+        called = [L for L in s.val.v if L in fl]
+        ok = not called
+        if called:
+            ctx.ob('V-NOCALL', None, False)
+            ctx.fail('V-NOCALL', s.func, 'calls the inspected function: %s' % ' '.join(unparse(s.node).split())[:60],
+                     'validate/signature call the function under inspection (%s): validity must be decided from the signature alone, without running user code' % unparse(s.node)[:60],
+                     '%s:%d' % (m.rel, s.lineno))
+    ctx.ob('V-NOCALL', 'calls examined in validate + signature', True, n=max(1, len([s for s in eng.sites if s.kind == 'call'])))
+    # ---- V-FIELDS: the verdict depends on every part of the signature the interpreter's binder consults, and on the call
+    d = _spec_deps(eng, raises + rets)
+    need = [('SPEC.' + f, 'the %s of the function' % f) for f in SPEC_FIELDS] + [
+        (r['func'] + '.args', "a partial's fixed positionals"), (r['func'] + '.keywords', "a partial's fixed keywords"),
+        (r['args'], 'the positional arguments of the call'), (r['kwds'], 'the keyword arguments of the call')]
+    for L, what in need:
+        ok = L in d or (L == 'SPEC.varkw' and 'SPEC.keywords' in d)
+        ctx.ob('V-FIELDS', 'verdict depends on %s' % what, ok)
+        if not ok:
+            ctx.fail('V-FIELDS', fi.qual, 'verdict independent of %s' % L.replace(r['func'], 'FN').replace(r['args'], 'ARGS').replace(r['kwds'], 'KWDS'),
+                     'no accept/reject decision of validate depends on %s, although Python\'s own binding does: for some signature the verdict must be wrong '
+                     '(e.g. a required keyword-only parameter is never demanded, and a keyword-only name is rejected as unexpected when there is no **kwds)' % what,
+                     '%s:%d' % (m.rel, fi.node.lineno))
+    # ---- V-ISVALID: isvalid is "validate did not raise"
+    isv = m.functions['isvalid']
+    ctx.analysed(isv.qual)
+    from .paths import Engine, R, C, RETURN, RAISE, render_path, GENERIC
+    from .rules_wrappers import PlainModel
+
+    class IModel(PlainModel):
+        def call(self, f, args, kws, st, node):
+            line = getattr(node, 'lineno', 0)
+            if f == ('lib', '%s.validate' % self.module.rel):
+                outs = []
+                for tok in ('TypeError', GENERIC):
+                    s2 = st.fork()
+                    s2.emit('VALIDATE!', (C(tok),) + tuple(args) + tuple(kws), line)
+                    outs.append(R(s2, None, tok, line))
+                st.emit('VALIDATE', tuple(args) + tuple(kws), line)
+                outs.append(R(st, ('const', None)))
+                return outs
+            if f == ('param', isv.node.args.args[0].arg):
+                s2 = st.fork()
+                s2.emit('CALLFN!', (), line)
+                st.emit('CALLFN', tuple(args) + tuple(kws), line)
+                return [R(st, ('ev', 'callfn', line)), R(s2, None, GENERIC, line)]
+            return None
+    ie = Engine(IModel(m), unroll=1)
+    a = isv.node.args
+    if not a.args or a.vararg is None or a.kwarg is None:
+        raise AnalysisError('anchor changed: isvalid is expected to take (func, *args, **kwds)')
+    fp, va, kw = ('param', a.args[0].arg), ('param', a.vararg.arg), ('param', a.kwarg.arg)
+    outs = ie.run_function(isv.node, {})
+    nv = 0
+    for o in outs:
+        evs = o.st.events
+        val = [e for e in evs if e.kind in ('VALIDATE', 'VALIDATE!')]
+        if not val:
+            ok, why = False, 'isvalid has a path that never consults validate'
+        else:
+            nv += 1
+            e = val[0]
+            fwd = tuple(x for x in e.args if not (x[0] == 'const' and e.kind == 'VALIDATE!' and x is e.args[0]))
+            ok = fwd == (fp, ('star', va), ('dstar', kw))
+            why = 'isvalid does not hand (func, *args, **kwds) unchanged to validate'
+            if ok and e.kind == 'VALIDATE':
+                ok = o.kind == RETURN and o.val == C(True)
+                why = 'validate accepted the call but isvalid does not return True'
+            elif ok:
+                called = [x for x in evs if x.kind == 'CALLFN']
+                if o.kind != RETURN:
+                    ok, why = False, 'validate rejected the call (%s) and isvalid lets the exception escape instead of answering False' % e.args[0][1]
+                elif called:
+                    ok = o.val == C(True)
+                    why = 'the fallback evaluation succeeded but isvalid does not return True'
+                    cl = called[0]
+                    if ok and tuple(cl.args) != (('star', va), ('dstar', kw)):
+                        ok, why = False, 'the fallback evaluation does not use the caller\'s (*args, **kwds)'
+                else:
+                    ok = o.val == C(False)
+                    why = 'validate rejected the call but isvalid does not return False'
+        ctx.ob('V-ISVALID', None, ok)
+        if not ok:
+            ctx.fail('V-ISVALID', isv.qual, why[:70], why, '%s:%d' % (m.rel, o.line or isv.node.lineno), render_path(o))
+    if nv < 2:
+        raise AnalysisError('%s: fewer paths through validate than confirmed' % isv.qual)
+    ctx.ob('V-ISVALID', 'isvalid paths', True)
+    # the only place the function may be evaluated is the fallback for callables whose signature cannot be inspected
+    deng = DepEngine(m, field_roots=set([('P:' + a.args[0].arg)]), inline=False)
+    deng.run(isv.node, isv.qual, {})
+    for s in deng.sites:
+        if s.kind == 'call' and s.val is not None and ('P:' + a.args[0].arg) in s.val.v:
+            ok = 'EXC' in s.ctx or any(L.startswith('LIB:exc_info') for L in s.ctx)
+            ctx.ob('V-NOCALL', 'isvalid fallback call is guarded by the caught error', ok)
+            if not ok:
+                ctx.fail('V-NOCALL', isv.qual, 'unguarded evaluation of the function',
+                         'isvalid evaluates func(*args, **kwds) on a path that is not guarded by a test on the error validate raised ("is not a Python function"): '
+                         'validity of Python functions must be decided without calling them', '%s:%d' % (m.rel, s.lineno))
